@@ -30,6 +30,8 @@ def sort_of(ty):
         return R
     if ty == "bool":
         return B
+    if ty == "opaque":
+        return Ref
     if ty == "str":
         return PStr
     if ty == "qset":
@@ -39,6 +41,9 @@ def sort_of(ty):
     if isinstance(ty, tuple) and ty[0] == "ref":
         return Ref
     raise TypeError(f"no sort for type {ty!r}")
+
+
+PI = z3.Real("PI")   # symbolic constant for math.pi / np.pi (A-REAL); axiom A-PI: 3 < PI < 4
 
 
 _str_consts = {}
@@ -76,7 +81,8 @@ SHAPES: dict[str, Shape] = {}
 _cid = itertools.count(1)
 
 
-def shape(name, bases=(), **fields):
+def shape(_name, bases=(), **fields):
+    name = _name
     fs = {}
     for b in bases:
         fs.update(SHAPES[b].fields)
@@ -363,6 +369,10 @@ class State:
         s.pcn = list(self.pcn)
         s.tags = list(self.tags)
         s.exc = self.exc
+        if getattr(self, "_qdoms", None) is not None:
+            s._qdoms = dict(self._qdoms)
+        if getattr(self, "writes", None):
+            s.writes = list(self.writes)
         return s
 
     def assume(self, *conds, name=None):
